@@ -54,3 +54,18 @@ V('C01', 'pointer-decision-before-bases', 'edb/edgeql/codegen.py', 'edb.edgeql.c
 ''', '''        _n_cmds = len(node.commands)
         node = self._ddl_add_pointer_bases(node)
 ''', 'C01.R7', 'visit_CreateLink:_ddl_add_pointer_bases')
+V('C01', 'interp-suffix-unescaped', 'edb/edgeql/codegen.py', 'edb.edgeql.codegen.EdgeQLSourceGenerator.visit_StrInterp',
+  '            self.write(edgeql_quote.escape_string(fragment.suffix))', '            self.write(fragment.suffix)', 'C01.R8', 'visit_StrInterp:escaped-between-quotes')
+V('C01', 'for-iterator-loses-parens', 'edb/edgeql/codegen.py', 'edb.edgeql.codegen.EdgeQLSourceGenerator._needs_parentheses',
+  '                and not parent.has_union\n                and parent.result is node\n', '                and not parent.has_union\n', 'C01.R6', 'ForQuery:names-the-child')
+V('C01', 'rewritten-copy-only-handed-on', 'edb/edgeql/codegen.py', 'edb.edgeql.codegen.EdgeQLSourceGenerator.visit_CreateConcretePointer',
+  '        node = self._ddl_add_pointer_bases(node)\n', '        _rewritten = self._ddl_add_pointer_bases(node)\n', 'C01.R7', 'visit_CreateConcretePointer:_ddl_add_pointer_bases')
+V('C01', 'neg-bytes-escape-inline', 'edb/edgeql/codegen.py', 'edb.edgeql.codegen.EdgeQLSourceGenerator.visit_BytesConstant',
+  '''        val = _BYTES_ESCAPE_RE.sub(_bytes_escape, node.value)
+        self.write("b'", val.decode('utf-8', 'backslashreplace'), "'")''', '''        self.write("b'")
+        self.write(_BYTES_ESCAPE_RE.sub(_bytes_escape, node.value).decode('utf-8', 'backslashreplace'))
+        self.write("'")''', None)
+V('C01', 'revert-required-cast', 'edb/edgeql/codegen.py', 'edb.edgeql.codegen.EdgeQLSourceGenerator.visit_TypeCast',
+  "        elif node.cardinality_mod is qlast.CardinalityModifier.Required:\n            self.write('required ')\n", '', 'C01.R9', 'visit_TypeCast:cardinality_mod')
+V('C01', 'revert-left-operand-parens', 'edb/edgeql/codegen.py', 'edb.edgeql.codegen.EdgeQLSourceGenerator.visit_BinOp',
+  '        self._visit_left_operand(node.left)\n', '        self.visit(node.left)\n', 'C01.R10', 'visit_BinOp:left-operand')
